@@ -93,23 +93,39 @@ func TestVerifC07Seq(t *testing.T) {
 	log := zap.NewNop()
 	renterKey, hostKey := types.NewPrivateKeyFromSeed(make([]byte, 32)), types.NewPrivateKeyFromSeed(append(make([]byte, 31), 9))
 	network, genesis := testutil.V1Network()
-	node := testutil.NewHostNode(t, hostKey, network, genesis, log)
-	s := node.Settings.Settings()
-	s.AcceptingContracts = true
-	s.NetAddress = "localhost:9983"
-	if err := node.Settings.UpdateSettings(s); err != nil {
-		t.Fatal(err)
-	}
-	testutil.MineAndSync(t, node, node.Wallet.Address(), int(network.MaturityDelay+5))
 
-	l, err := net.Listen("tcp", "localhost:0")
-	if err != nil {
-		t.Fatal(err)
+	// a host node serves a batch of contracts: v1 contracts must start their proof window before
+	// the test network's v2 require height, and every contract is confirmed in its own block
+	const perNode = 30
+	var node *testutil.HostNode
+	var l net.Listener
+	var closeNode func()
+	newNode := func() {
+		if closeNode != nil {
+			closeNode()
+		}
+		node = testutil.NewHostNode(t, hostKey, network, genesis, log)
+		s := node.Settings.Settings()
+		s.AcceptingContracts = true
+		s.NetAddress = "localhost:9983"
+		if err := node.Settings.UpdateSettings(s); err != nil {
+			t.Fatal(err)
+		}
+		testutil.MineAndSync(t, node, node.Wallet.Address(), int(network.MaturityDelay+5))
+		var err error
+		l, err = net.Listen("tcp", "localhost:0")
+		if err != nil {
+			t.Fatal(err)
+		}
+		sh := rhp2.NewSessionHandler(l, hostKey, node.Chain, node.Syncer, node.Wallet, node.Contracts, node.Settings, node.Volumes, log)
+		go sh.Serve()
+		closeNode = func() { sh.Close(); l.Close() }
 	}
-	defer l.Close()
-	sh := rhp2.NewSessionHandler(l, hostKey, node.Chain, node.Syncer, node.Wallet, node.Contracts, node.Settings, node.Volumes, log)
-	defer sh.Close()
-	go sh.Serve()
+	defer func() {
+		if closeNode != nil {
+			closeNode()
+		}
+	}()
 
 	dial := func() *crhp2.Transport {
 		conn, err := net.Dial("tcp", l.Addr().String())
@@ -145,6 +161,9 @@ func TestVerifC07Seq(t *testing.T) {
 	n := verifN(6)
 	id := 0
 	for sc := 0; sc < n; sc++ {
+		if sc%perNode == 0 {
+			newNode()
+		}
 		steps := scenarios[sc%len(scenarios)]
 		rng := verifCaseRand(sc)
 		// form a contract
@@ -153,7 +172,7 @@ func TestVerifC07Seq(t *testing.T) {
 		if err != nil {
 			t.Fatal(err)
 		}
-		fc := crhp2.PrepareContractFormation(renterKey.PublicKey(), hostKey.PublicKey(), types.Siacoins(uint32(5+rng.Intn(10))), types.Siacoins(uint32(10+rng.Intn(10))), node.Chain.Tip().Height+200, settings, node.Wallet.Address())
+		fc := crhp2.PrepareContractFormation(renterKey.PublicKey(), hostKey.PublicKey(), types.Siacoins(uint32(5+rng.Intn(10))), types.Siacoins(uint32(10+rng.Intn(10))), node.Chain.Tip().Height+150+uint64(rng.Intn(20)), settings, node.Wallet.Address())
 		formationCost := crhp2.ContractFormationCost(node.Chain.TipState(), fc, settings.ContractPrice)
 		txn := types.Transaction{FileContracts: []types.FileContract{fc}}
 		toSign, err := node.Wallet.FundTransaction(&txn, formationCost, true)
